@@ -164,7 +164,8 @@ def case_log(seed, out, spec, wd):
         from deep.api.plugin.python import PythonPlugin
         plist = [PythonPlugin(config=None)]
     else:
-        plist = [plugins.RecLogger()]
+        # a logger object may well be falsy (e.g. it implements __len__ and is empty): it is still the logger
+        plist = [plugins.make('RecLogger', ['log'], falsy=r.pick([None, None, None, 'len', 'bool']))()]
     rig = Rig(custom={}, host_dir=wd, plugins=plist)
     rig.install(trigs)
     nhits = r.randrange(1, 5)
